@@ -119,14 +119,24 @@ let handle kind a =
        | DPanic -> Some "Panic"
        | DUnsupported -> Some "unsupported")
   | "nfe" ->
-      (match nx_encode_e_byte (n_of_dec a.(0)) (bytes_of_hex a.(1)) with
+      (match nx_encode_s_byte (n_of_dec a.(0)) (bytes_of_hex a.(1)) with
        | NeOk bs -> Some (long_obs bs)
-       | NeOrder1 -> Some "order1"
        | NeStripe -> Some "stripe"
        | NePanic -> Some "Panic"
        | NeDiverges -> Some "Diverges")
   | "nfd" ->
-      (match nx_decode_e (bytes_of_hex a.(2)) (n_of_dec a.(1)) with
+      (match nx_decode_s (bytes_of_hex a.(2)) (n_of_dec a.(1)) with
+       | DOk bs -> Some (long_obs bs)
+       | DErr -> Some "Err"
+       | DPanic -> Some "Panic"
+       | DUnsupported -> Some "unsupported")
+  | "aae" ->
+      (match aac_encode_r_byte (n_of_dec a.(0)) (bytes_of_hex a.(1)) with
+       | AeOk bs -> Some (long_obs bs)
+       | AeUnsupported -> Some "unsupported"
+       | AePanic -> Some "Panic")
+  | "aad" ->
+      (match aac_decode_r (bytes_of_hex a.(2)) (n_of_dec a.(1)) with
        | DOk bs -> Some (long_obs bs)
        | DErr -> Some "Err"
        | DPanic -> Some "Panic"
